@@ -350,6 +350,46 @@ Section TextEchoProofs.
   Qed.
 End TextEchoProofs.
 
+(* ------------------------------------------------------------------ the class "every finite datum" *)
+(* under exactly the two library hypotheses of C06_json_text_roundtrip, plus: the reader never
+   returns NaN or an infinity *)
+Section FiniteClass.
+  Variable pfs : string -> option (list lamarg * string).
+  Variable pbody : string -> outcome expr.
+  Variable emit : expr -> list (string * svalue) -> string.
+  Variable nameof : lam_id -> option string.
+  Variable fmt_pieces : num -> numtok.
+  Variable float_of_tok : numtok -> option num.
+  Hypothesis H_print_wf : forall x, is_finite x = true ->
+    tok_wf (fmt_pieces x) = true /\ tok_is_float (fmt_pieces x) = true.
+  Hypothesis H_roundtrip : forall x, is_finite x = true -> float_of_tok (fmt_pieces x) = Some x.
+  Hypothesis H_fot : fot_finite float_of_tok.
+
+  Lemma int_as_f64_finite z : I64_MIN <= z <= U64_MAX -> is_finite (num_of_Z z) = true.
+  Proof. intros Hz. apply num_of_Z_finite. unfold I64_MIN, U64_MAX in Hz. lia. Qed.
+
+  Theorem parse_print_parse_finite s d :
+    json_from_str float_of_tok s = Some d ->
+    exists d', json_from_str float_of_tok (jprint fmt_pieces d) = Some d' /\ json_equiv d d'.
+  Proof.
+    exact (parse_print_parse_equiv fmt_pieces float_of_tok is_finite H_print_wf H_roundtrip
+             (fun x H => H) H_fot s d).
+  Qed.
+
+  Theorem cli_text_echo_object_finite s m key name x :
+    json_from_str float_of_tok s = Some (JObj m) ->
+    forallb (fun kv => json_no_reserved pfs (sj_build (snd kv))) m = true ->
+    jlookup m key = Some x ->
+    cli_text_echo pfs pbody emit nameof fmt_pieces float_of_tok s key name
+      = Ok (jprint fmt_pieces (JObj [(name, jcanon x)]))
+    /\ json_from_str float_of_tok (jprint fmt_pieces (JObj [(name, jcanon x)])) = Some (JObj [(name, jcanon x)])
+    /\ json_equiv (jcanon x) x.
+  Proof.
+    exact (cli_text_echo_object pfs pbody emit nameof fmt_pieces float_of_tok is_finite H_print_wf H_roundtrip
+             (fun x H => H) H_fot int_as_f64_finite s m key name x).
+  Qed.
+End FiniteClass.
+
 (* F31 at the echo level: a bare array nested 127 deep is accepted as input, and the output of
    `output x = inputs.value_1` — one level deeper — is rejected as input *)
 Lemma cli_text_echo_depth_refuted :
